@@ -4554,7 +4554,7 @@ void FPProc::LineIntegral(int inttype, CComplex *z)
                     // save time over checking the whole mesh
                     for(j=0; j<3; j++)
                     {
-                        for(m=0; m < NumList[meshelem[elm].p[j]]; m++)
+                        for(m=0; j<3 && m < NumList[meshelem[elm].p[j]]; m++)
                         {
                             elm = ConList[meshelem[elm].p[j]][m];
 
